@@ -69,3 +69,10 @@ def _f9b(case, failure):
     pass sees 'comment, blank, newline, operator' (newline = whitespace, nothing inserted) and the serializer strips the
     blank; on the second pass the newline belongs to the Comment group, so a blank is inserted before the operator."""
     return (failure.clause, failure.sig) == ('nf2-fixed-point', 'changed:comment_line_end_before_operator')
+
+
+@classifier('f12a_keyword_tight_paren')
+def _f12a(case, failure):
+    """F12a: a leading DML keyword written directly before '(' is lexed as a Name (rule "word followed by ( is a
+    function name"), so get_type() is UNKNOWN.  Only the dedicated leg that writes exactly that shape tags its failures."""
+    return failure.clause == 'type' and failure.sig.endswith(':leading_kw_tight_paren') and bool(case.get('hazard'))
